@@ -106,20 +106,26 @@ class SqlParseColumn(Column):
                 from sqllineage.runner import LineageRunner
 
                 # (SELECT avg(col1) AS col1 FROM tab3), used after WHEN or THEN in CASE clause
+                runner = LineageRunner(token.value, dialect=SQLPARSE_DIALECT)
                 src_cols = [
                     lineage[0]
-                    for lineage in LineageRunner(
-                        token.value, dialect=SQLPARSE_DIALECT
-                    ).get_column_lineage(exclude_path_ending_in_subquery=False)
+                    for lineage in runner.get_column_lineage(
+                        exclude_path_ending_in_subquery=False
+                    )
                 ]
+                # a table the sub-query reads itself is handed back by its full name: its bare name could be
+                # captured by an alias of the outer query. Anything else is a reference to the outer query.
+                tables_read = set(runner.source_tables)
                 source_columns = [
                     ColumnQualifierTuple(
                         src_col.raw_name,
-                        # a table read with an explicit schema keeps it: the bare name would land in the default schema
                         (
                             str(src_col.parent)
                             if isinstance(src_col.parent, Table)
-                            and src_col.parent.schema
+                            and (
+                                src_col.parent in tables_read
+                                or src_col.parent.schema
+                            )
                             else src_col.parent.raw_name
                         )
                         if src_col.parent
